@@ -341,6 +341,7 @@ PROPS = {
                       "Not decided: 'valid templates are never rejected'; message formatting.",
         "units": TOKEN + [K("k3::S-Strict-rejects"), K("k3::S-Deferred-twice"), K("parser.py::match_tag"),
                           U('pyvc.frames', 'cook_error_frame', '_cook.error_frame'),
+                          U('pyvc.regexlang', 'statement_unit', 'tal.statement_patterns'),
                           U('pyvc.frames', 'decorator_audit', 'decorator_audit')],
         "not_decided": ["'A template without such an error is never rejected' (needs a notion of "
                         "validity independent of the implementation)",
